@@ -36,6 +36,138 @@ def terminal_ui(ctx, rep):
     rep.extra['prompt_scripts'] = ctx.pick(300, 3000)
 
 
+def gdb_walk(ctx, rep, k):
+    """The real plugin in the real gdb: a scenario of closures on several connections runs under a breakpoint matcher; a gdb
+    command file probes where the program is halted (`print g_current`), types commands there and resumes.  The recorded
+    walk (hits with halt / no halt, commands at the halts) is returned as a TraceGdb trace."""
+    import random, re
+    import e3, mrender
+    from props import c09
+    r = random.Random(ctx.seed * 1299709 + k)
+    names = ['resize', 'destroy', 'configure', 'offer', 'release', 'motion']
+    closures = []
+    n = r.randint(12, 30)
+    for i in range(n):
+        sig = [r.choice('iufsh') for _ in range(r.randint(0, 3))]
+        c = c09.make_closure(sig, i, r, kind=r.choice([0, 1, 3]))
+        c['name'] = r.choice(names)
+        closures.append(c)
+    lines, ops = c09.scenario_lines(closures)
+    # connection slot of each closure: scenario_lines uses k % 3
+    bname = r.choice(names)
+    btext = r.choice(['.' + bname, '.[%s, %s]' % (bname, r.choice(names)), '(5)', '.' + bname + ' ! (0)'])
+    bast = {'.': None}
+    cmds = ['run']
+    script = []      # what is typed at each halt
+    for h in range(n + 2):
+        at = ['print g_current']
+        extra = r.choice([[], [], ['wl list ~ 1'], ['wl help'], ['wl bogus'], ['wl breakpoint .%s' % r.choice(names)], ['wl connection B'], ['wl connection all']])
+        at += extra
+        at.append(r.choice(['wlresume', 'wl resume', 'wl r']))
+        script.append(extra)
+        cmds += at
+    segs, raw = e3.run_scenario(lines, argv=('-C', '-b', btext), commands=cmds)
+    probes = []
+    for ln_ in raw.split('\n'):
+        if 'exited normally' in ln_ or 'exited with' in ln_ or ln_.startswith('@@ end'):
+            break           # after the program has finished the probe only reads the executable's initial value
+        mm = re.match(r'^\$\d+ = (\d+)$', ln_)
+        if mm:
+            probes.append(int(mm.group(1)))
+    return closures, ops, segs, probes, script, btext, raw
+
+
+def gdb_walks(ctx, rep):
+    """halting observed in the real gdb, judged by Matcher!Sem through TraceGdb"""
+    import json as _json
+    import e3, lexer, mrender, tracecheck
+    from props import c09
+    traces, metas = [], []
+    for k in range(ctx.pick(6, 40)):
+        closures, ops, segs, probes, script, btext, raw = gdb_walk(ctx, rep, k)
+        # the breakpoint matcher as a tree (the texts above are fixed shapes)
+        def name_pat(nm):
+            return mrender.pat_full(name=mrender.W(nm))
+        if btext.startswith('.['):
+            a, b = btext[2:-1].split(', ')
+            bast = mrender.pat_full(name={'k': 'list', 'pos': [mrender.W(a), mrender.W(b)], 'neg': []})
+        elif btext == '(5)':
+            bast = mrender.pat_full(args=mrender.args([mrender.arg({'k': 'int', 'v': 5})]))
+        elif ' ! ' in btext:
+            bast = mrender.lst([name_pat(btext.split(' ! ')[0][1:])], [mrender.pat_full(args=mrender.args([mrender.arg({'k': 'int', 'v': 0})]))])
+        else:
+            bast = name_pat(btext[1:])
+        events = []
+        halts = list(probes)
+        hidx = 0
+        ok = True
+        for ln in sorted(ops):
+            c = closures[ops[ln]]
+            ev = c09.abstract_line(c)
+            m = ev['m']
+            for a in m['args']:
+                if a['k'] == 'uint':
+                    a['k'] = 'int'
+                    if a['v'] >= 2 ** 31:
+                        a['v'] -= 2 ** 32
+            if c['kind'] in (3, 4):
+                m['ttype'] = ''
+            for a, ty in zip(m['args'], c['types']):
+                if a['k'] == 'obj':
+                    a['type'] = ty
+            item, other = e3.message_of(segs.get(ln, []))
+            items = []
+            for l in e3.interesting(segs.get(ln, [])):
+                it = lexer.lex_out(l)
+                if it['k'] in ('text',) and l.startswith('$'):
+                    continue
+                if it['k'] == 'text' and (l.startswith('Usage') or l.startswith('Commands') or l.startswith('  (gdb)') or l.startswith('Help with')
+                                          or l.startswith('(') or 'Error in sourced' in l or 'not being run' in l or l.startswith('Run till')):
+                    continue
+                items.append(it)
+            halted = hidx < len(halts) and halts[hidx] == ln
+            # items printed while executing the closure: up to the halt; what the commands print comes after the probe
+            hit_items = [i for i in items if i['k'] in ('new', 'msg', 'stopped', 'sep', 'warning', 'closed')]
+            events.append({'in': {'e': 'hit', 'addr': 'conn%d' % (ops[ln] % 3), 'thread': 1, 't': 1000 + ln, 'm': m},
+                           'obs': {'items': [i for i in hit_items if i['k'] != 'sep'], 'halt': halted}})
+            if halted:
+                for text in script[hidx]:
+                    word = text.split()[1]
+                    if word == 'breakpoint':
+                        cmd = {'e': 'cmd', 'c': 'break', 'hasarg': True, 'ok': True, 'ast': name_pat(text.split('.')[1])}
+                    elif word == 'connection':
+                        cmd = {'e': 'cmd', 'c': 'conn', 'arg': text.split()[2]}
+                    elif word == 'list':
+                        cmd = {'e': 'cmd', 'c': 'other', 'text': 'list ~ 1'}
+                    else:
+                        cmd = {'e': 'cmd', 'c': 'other', 'text': word}
+                    events.append({'in': {'e': 'invoke', 'cmd': cmd}, 'obs': {'items': [{'k': 'text'}], 'exec': 'none', 'halt': True}})
+                events.append({'in': {'e': 'invoke', 'cmd': {'e': 'cmd', 'c': 'resume'}}, 'obs': {'items': [], 'exec': 'continue', 'halt': False}})
+                hidx += 1
+        if hidx != len(halts):
+            rep.violation('gdb:halt-elsewhere', 'in the real gdb the program was found halted at scenario lines %s, which are not all closures in order' % halts,
+                          {'kind': 'walk', 'k': k})
+        traces.append({'init': {'show': True, 'hasf': False, 'hasb': True, 'b': bast}, 'events': events})
+        metas.append((k, btext))
+        rep.case('gdb-walk:%d:%s' % (k, btext))
+    # output of commands is free-form here: only halting and the notices of the hits are judged
+    for tr in traces:
+        for e in tr['events']:
+            if e['in']['e'] == 'invoke':
+                e['obs'].pop('items')
+                e['obs']['items'] = []
+                e['in']['cmd'] = dict(e['in']['cmd'])
+    v = tracecheck.validate_parallel(traces, name='c10gdb', spec=('TraceGdb.tla', 'TraceGdb.cfg'))
+    rep.add_tlc(v, 'TraceGdb on %d walks of the real plugin in the real gdb (%d events)' % (v.ntraces, v.nsteps))
+    rep.traces += v.ntraces
+    rel = lambda a: a in ('halt',) or a.startswith('shape.want.stopped') or a.startswith('shape.missing.stopped') or a.startswith('shape.extra.stopped') or a.startswith('stopped.name')
+    for t, l, asp in v.failing(rel):
+        k, btext = metas[t - 1]
+        rep.violation('gdb-walk:' + ','.join(sorted(a for a in asp if rel(a))), 'real gdb walk %d (breakpoint %r): event %d (%s) differs in %s'
+                      % (k, btext, l, _json.dumps(traces[t - 1]['events'][l - 1]['in'])[:200], [a for a in asp if rel(a)]), {'kind': 'walk', 'k': k})
+    rep.extra['real_gdb_walks'] = len(traces)
+
+
 def sessions(ctx):
     def it(rep):
         yield from gdbbase.model_traces(ctx, rep, ctx.pick(900, 9000), ctx.pick(4, 5))
@@ -54,11 +186,17 @@ def run(ctx):
         'scripted input: the number of prompts must equal the position of the first resume/quit.',
         sessions(ctx), relevant('C10'))
     terminal_ui(ctx, rep)
+    gdb_walks(ctx, rep)
     return rep
 
 
 def replay(ctx, data):
     if data.get('kind') == 'prompt':
         print(data['script'])
+        return True
+    if data.get('kind') == 'walk':
+        closures, ops, segs, probes, script, btext, raw = gdb_walk(ctx, None, data['k'])
+        print('breakpoint matcher', btext, 'halts at scenario lines', probes)
+        print(raw[-3000:])
         return True
     return sessionprop.replay_session(ctx, data, relevant('C10'), runner=gdbbase.runner, spec=gdbbase.SPEC)
